@@ -50,7 +50,12 @@ func c15Case(c *core.Case) {
 	isJSON := gen.Chance(r, 0.3)
 	seed := pickSeed(c, isJSON)
 	src := seed
-	if gen.Chance(r, 0.7) {
+	switch k := r.Intn(10); {
+	case k < 2:
+		// exactly one punctuation character written as another
+		src = gen.SwapPunct(r, seed)
+		c.Count("mutation:one-punctuation-swap")
+	case k < 8:
 		src = gen.Mutate(r, seed, 6)
 	}
 	if hugeExp.Match(src) {
